@@ -18,7 +18,8 @@ class Test:
         self.setup, self.body, self.teardown = list(setup), list(body), list(teardown)
         self.kill = kill            # None | (point, nth, how) with how = ('sig', n) | ('exit', n) | ('_exit', n)
 
-    name = property(lambda s: "t%d" % s.tid)
+    name_override = None
+    name = property(lambda s: s.name_override or "t%d" % s.tid)
 
 
 class Suite:
@@ -26,7 +27,8 @@ class Suite:
         self.sid, self.has_setup, self.has_teardown = sid, has_setup, has_teardown
         self.children = children if children is not None else []
 
-    name = property(lambda s: "s%d" % s.sid)
+    name_override = None
+    name = property(lambda s: s.name_override or "s%d" % s.sid)
 
     def tests(self):
         for c in self.children:
